@@ -151,6 +151,14 @@ def handle (s : DState) : List String → DState × String
     | some c => ({ cfg := c, st := {} }, "ok")
     | none => (s, "bad-op")
   | ["init"] => doStep s .init
+  | ["restore", q, exp, sd, mode] =>
+    -- `_restore_state((q, exp, sdata))`; exp `-` = None; mode n = regular calc_output, r = it raises, u = UNDEF
+    let e : Option (Option Nat) := if exp == "-" then some none else exp.toNat?.map some
+    let m : Option CalcMode := if mode == "n" then some .normal else if mode == "r" then some .raises
+      else if mode == "u" then some .undef else none
+    match e, parseOptVal sd, m with
+    | some e, some sd, some m => doStep s (.restore q e sd m)
+    | _, _, _ => (s, "bad-op")
   | ["stop"] => doStep s .stop
   | ["adv", t] =>
     match t.toNat? with
